@@ -41,6 +41,13 @@ Python → Lean
   `check_call_in_cache` → `Op.check`;  `MemorizedFunc.clear` → `Op.clearFn`;
   `Memory.clear` → `Op.clearAll`;  `Memory.reduce_size` / `MemorizedResult.clear` /
   `clear_item` → `Op.evict` (WHICH entries `reduce_size` picks is C18's model: the set is an input)
+* `_call(call_id, args, kwargs)` / `_after_call(call_id, …)`: the call id travels as a PARAMETER from the
+  lookup to `dump_item` — `compute st fn id c` stores under the `id` it is given, nothing about "the
+  running call" lives on the `MemorizedFunc` instance.  Hence computations of one cached function
+  that are nested (a recursive cached function) or overlap (threads, gathered awaits) each store
+  under their own id, and such a history is the sequence of its calls in the order in which they
+  COMPLETE (each `Op.call` is atomic at its completion; the harness flattens them so — their keys
+  are distinct, so the lookups made at their starts are unaffected).  `C02.stored_under_own_id`.
 * a fresh process on the same directory → `Op.fresh`: nothing of this model lives in memory
   (the in-memory function table is `FuncCode.lean`, C12)
 
